@@ -3,6 +3,7 @@ package loading
 import (
 	"context"
 	"fmt"
+	"io"
 	"os"
 
 	"gopkg.in/yaml.v3"
@@ -34,6 +35,15 @@ func (j YamlLoader) Load(_ context.Context, filePath string) (PackageDTO, bool, 
 			"failed to decode JSON file %s: %w",
 			filePath,
 			err)
+	}
+
+	// The file must consist of exactly one YAML document: further documents would be
+	// ignored silently (Decode reads one document per call).
+	var trailing yaml.Node
+	if trailingErr := decoder.Decode(&trailing); trailingErr != io.EOF {
+		return pkg, true, fmt.Errorf(
+			"failed to decode YAML file %s: unexpected data after the package definition (only one YAML document is allowed)",
+			filePath)
 	}
 
 	return pkg, true, nil
